@@ -17,7 +17,8 @@ MANIFEST = dict(
          "nesting), pairs of such mutations, and whole-body / HTTP classes, x rolling / generateSelector / finalize / customize / "
          "decorator x strict / loose; each case is served by the in-process webhook to the real controllers (real decode path, real "
          "worker entry point with panic capture) and TLC validates the trace against spec/TraceSync.tla (C13_NoPanic, "
-         "C13_RejectedNoWrites).  Byte-level coverage-guided fuzzing is outside this technique and is not claimed.",
+         "C13_RejectedNoWrites).  Byte-level coverage-guided fuzzing is outside this technique and is not claimed."
+         ' ETag sequences (a rejected answer carrying an ETag then 304; 200 + ETag then 304) are part of the grammar; slices of every other family run under C13_NoPanic / C13_RejectedNoWrites too (a worker must not panic in any world).',
     ref="DESIGN.md §8 C13",
     tech="TLA+ response grammar enumerated by TLC, replayed on real code + TLC trace validation")
 
